@@ -288,4 +288,15 @@ def dom_end(ctx, prog):
 
 dom_end.rule_id = "C04.DOM-end"
 
-RULES = [weak_core, weak_map, rcb, cfgd, guard_bypass, rcb_user, data_swap, dom_end]
+def sib_queue_len(ctx, prog):
+    """Both heaps are sized limit+1 everywhere: if one of them is a bucket short, a graph whose height is within
+    the configured maximum passes the limit test of one heap and panics on an index/assertion in the other. Same
+    rule as C19.SIB-queue-len."""
+    from .engine import run_relabelled
+    from .c19 import sib_queue_len as f
+    run_relabelled(ctx, prog, f, "C19.SIB-queue-len", "C04.SIB-queue-len")
+
+
+sib_queue_len.rule_id = "C04.SIB-queue-len"
+
+RULES = [weak_core, weak_map, rcb, cfgd, guard_bypass, rcb_user, data_swap, dom_end, sib_queue_len]
